@@ -230,3 +230,282 @@ class SimPool:
 
     def terminate(self):
         pass
+
+
+# ------------------------------------------------------------------------------------------------
+# ForkPool: real worker *processes* (private module state, real pickling over pipes) whose schedule the
+# simulator still owns: the Scheduler decides which free worker gets the next task and which running
+# worker's result is observed next.  Each worker executes its tasks sequentially, so the execution is a
+# pure function of the decisions.  ("Real processes parked and released one at a time.")
+
+import os as _os
+import struct as _struct
+
+
+def _send(fd, obj):
+    data = pickle.dumps(obj)
+    _os.write(fd, _struct.pack('<Q', len(data)))
+    off = 0
+    while off < len(data):
+        off += _os.write(fd, data[off:off + 65536])
+
+
+def _recv(fd):
+    hdr = b''
+    while len(hdr) < 8:
+        b = _os.read(fd, 8 - len(hdr))
+        if not b:
+            return None
+        hdr += b
+    n = _struct.unpack('<Q', hdr)[0]
+    chunks = []
+    got = 0
+    while got < n:
+        b = _os.read(fd, min(65536, n - got))
+        if not b:
+            return None
+        chunks.append(b)
+        got += len(b)
+    return pickle.loads(b''.join(chunks))
+
+
+class _ForkWorker:
+    def __init__(self, wid, hook, on_start=None, siblings=()):
+        self.wid = wid
+        p2c_r, p2c_w = _os.pipe()
+        c2p_r, c2p_w = _os.pipe()
+        self.pid = _os.fork()
+        if self.pid == 0:
+            _os.close(p2c_w)
+            _os.close(c2p_r)
+            for sib in siblings:       # do not keep the parent's ends of the other workers' pipes open
+                for fd in (sib.w, sib.r):
+                    try:
+                        _os.close(fd)
+                    except OSError:
+                        pass
+            try:
+                if on_start:
+                    on_start(wid)      # e.g. give this worker its own stream of temp-file names (real workers draw independent uuid4s)
+                while True:
+                    msg = _recv(p2c_r)
+                    if msg is None:
+                        break
+                    idx, func, arg, fault = msg
+                    try:
+                        if fault == 'exception':
+                            raise OSError(5, f'injected worker I/O failure in task {idx}')
+                        res = hook(func, arg, 0, idx, worker_side=True) if hook else (func(arg), None)
+                        _send(c2p_w, (idx, 'ok', res))
+                    except Exception as e:
+                        try:
+                            pickle.dumps(e)
+                            _send(c2p_w, (idx, 'exc', (e, None)))
+                        except Exception:
+                            _send(c2p_w, (idx, 'exc', (RuntimeError(repr(e)), None)))
+            finally:
+                _os._exit(0)
+        _os.close(p2c_r)
+        _os.close(c2p_w)
+        self.w, self.r = p2c_w, c2p_r
+        self.busy = None
+        self.dead = False
+
+    def kill(self):
+        if not self.dead:
+            self.dead = True
+            try:
+                _os.kill(self.pid, 9)
+            except OSError:
+                pass
+            try:
+                _os.waitpid(self.pid, 0)
+            except OSError:
+                pass
+            for fd in (self.w, self.r):
+                try:
+                    _os.close(fd)
+                except OSError:
+                    pass
+
+    def stop(self):
+        if not self.dead:
+            self.dead = True
+            try:
+                _os.close(self.w)
+            except OSError:
+                pass
+            try:
+                _os.waitpid(self.pid, 0)
+            except OSError:
+                pass
+            try:
+                _os.close(self.r)
+            except OSError:
+                pass
+
+
+class _ForkIter:
+    def __init__(self, pool, func, tasks, ordered):
+        self.pool, self.func, self.tasks, self.ordered = pool, func, tasks, ordered
+        self.n = len(tasks)
+        self.next_start = 0
+        self.ready = []
+        self.delivered = 0
+        self.next_ordered = 0
+        self.lost = set()
+
+    def __iter__(self):
+        return self
+
+    def _enabled(self):
+        ev = []
+        free = [w for w in self.pool.workers if w.busy is None and not w.dead]
+        if self.next_start < self.n:
+            for w in free:
+                ev.append(('start', w))
+        for w in self.pool.workers:
+            if w.busy is not None and not w.dead:
+                ev.append(('complete', w))
+        return ev
+
+    def _step(self):
+        ev = self._enabled()
+        if not ev:
+            return False
+        sch = self.pool.sched
+        kind, w = ev[sch.choose(len(ev))]
+        pid = self.pool.pool_id
+        if kind == 'start':
+            i = self.next_start
+            self.next_start += 1
+            fault = self.pool.faults.get((pid, i)) or self.pool.faults.get(('*', i))
+            if fault == 'lost-before':
+                w.kill()
+                self.lost.add(i)
+                self.pool.fired('worker_lost')
+                sch.log.add('pool', pid, 'worker-lost-before', i, w.wid)
+                return True
+            try:
+                _send(w.w, (i, self.func, self.tasks[i], fault if fault == 'exception' else None))
+            except Exception as e:       # unpicklable argument: fails in the feeder as across a real process boundary
+                self.ready.append((i, 'exc', e))
+                sch.log.add('pool', pid, 'unpicklable-arg', i)
+                return True
+            if fault == 'exception':
+                self.pool.fired('worker_exception')
+            w.busy = (i, fault)
+            sch.log.add('pool', pid, 'start', i, w.wid)
+        else:
+            i, fault = w.busy
+            w.busy = None
+            msg = _recv(w.r)
+            if msg is None:              # the worker process died while running the task (e.g. killed at a crash point)
+                w.dead = True
+                self.lost.add(i)
+                sch.log.add('pool', pid, 'worker-died', i, w.wid)
+                return True
+            idx, kind2, (res, info) = msg
+            if info is not None and self.pool.task_hook:
+                self.pool.task_hook(None, info, pid, idx, parent_side=True)
+            if fault == 'lost-after':
+                w.kill()
+                self.lost.add(i)
+                self.pool.fired('worker_lost')
+                sch.log.add('pool', pid, 'worker-lost-after', i, w.wid)
+                return True
+            self.ready.append((idx, kind2, res))
+            sch.log.add('pool', pid, 'complete', idx, kind2, w.wid)
+        return True
+
+    def __next__(self):
+        sch = self.pool.sched
+        while True:
+            if self.delivered + len(self.lost) >= self.n and not self.ready:
+                if self.lost:
+                    sch.log.add('pool', self.pool.pool_id, 'HUNG', sorted(self.lost))
+                    raise SimHang(f'pool {self.pool.pool_id}: results of tasks {sorted(self.lost)} never arrive')
+                raise StopIteration
+            deliverable = None
+            if self.ordered:
+                for k, r in enumerate(self.ready):
+                    if r[0] == self.next_ordered:
+                        deliverable = k
+                        break
+                if deliverable is None and self.next_ordered in self.lost:
+                    raise SimHang(f'pool {self.pool.pool_id}: ordered result {self.next_ordered} never arrives')
+            elif self.ready:
+                deliverable = 0
+            if deliverable is not None and self._enabled() and sch.choose(2, 'pile') == 1:
+                self._step()
+                continue
+            if deliverable is not None:
+                i, kind, payload = self.ready.pop(deliverable)
+                self.delivered += 1
+                self.next_ordered += 1
+                sch.log.add('pool', self.pool.pool_id, 'deliver', i, kind)
+                self.pool.order.append(i)
+                if kind == 'exc':
+                    raise payload
+                return payload
+            if not self._step():
+                if self.lost:
+                    sch.log.add('pool', self.pool.pool_id, 'HUNG', sorted(self.lost))
+                    raise SimHang(f'pool {self.pool.pool_id}: results of tasks {sorted(self.lost)} never arrive')
+                raise StopIteration
+
+
+class ForkPool:
+    def __init__(self, factory, processes):
+        self.factory = factory
+        self.sched = factory.sched
+        self.faults = factory.faults
+        self.task_hook = factory.task_hook
+        self.pool_id = len(factory.pools)
+        self.processes = factory.width or processes or 4
+        self.order = []
+        self.sched.log.add('pool', self.pool_id, 'create-forked', self.processes)
+        self.workers = []
+        for i in range(self.processes):
+            self.workers.append(_ForkWorker(i, factory.task_hook, getattr(factory, 'on_worker_start', None), siblings=list(self.workers)))
+
+    def fired(self, k):
+        self.factory.fired(k)
+
+    def __enter__(self):
+        return self
+
+    def __exit__(self, *a):
+        self.terminate()
+        return False
+
+    def imap_unordered(self, func, iterable, chunksize=1):
+        return _ForkIter(self, func, list(iterable), ordered=False)
+
+    def imap(self, func, iterable, chunksize=1):
+        return _ForkIter(self, func, list(iterable), ordered=True)
+
+    def map(self, func, iterable, chunksize=None):
+        return list(self.imap(func, iterable))
+
+    def close(self):
+        for w in self.workers:
+            w.stop()
+
+    def join(self):
+        pass
+
+    def terminate(self):
+        for w in self.workers:
+            w.kill()
+
+
+class ForkPoolFactory(SimPoolFactory):
+    """same seam as SimPoolFactory but with real forked worker processes"""
+
+    def Pool(self, processes=None, *a, **k):
+        p = ForkPool(self, processes)
+        self.pools.append(p)
+        return p
+
+    __call__ = Pool
